@@ -99,14 +99,14 @@ def model_A(r, delays, T=2.0):
 followup = {}
 
 
-def exec_A(version, r, delays, via_refresh=False, calibrating=False):
+def exec_A(version, r, delays, via_refresh=False, calibrating=False, second_silent=False):
     followup.clear()
     settle = 20.0 if calibrating else r * read_timeout(version) + 6.0
     w = World()
     token, key = filler("c08/tok", 64), filler("c08/key", 32)
     tx = []
     tx2 = []
-    phase = {"second": False}
+    phase = {"second": False, "second_silent": second_silent}
 
     def script(req):
         if req.kind == "handshake":
@@ -115,8 +115,9 @@ def exec_A(version, r, delays, via_refresh=False, calibrating=False):
             return
         if phase["second"]:
             tx2.append(w.now())
-            for p in req.responses:
-                req.send(p)
+            if not phase.get("second_silent"):
+                for p in req.responses:
+                    req.send(p)
             return
         i = len(tx)
         tx.append(w.now())
@@ -209,6 +210,16 @@ def run_A(st: Stats, version, r, part, nparts, via_refresh=False, alphabet=None)
                 prob = f"the exchange after this one transmitted its request {len(t2)} times (prompt device)"
             elif sec[0] != "ok" or sec[1] < 1:
                 prob = f"the exchange after this one did not return the prompt reply: {sec}"
+        if prob is None and not via_refresh and idx % 3 == 0:
+            # ... and when the device has gone silent for that next exchange, whatever is still queued from this one
+            # must not hide that: the full budget is used and the exchange times out
+            exec_A(version, r, delays, second_silent=True)
+            sec, t2 = followup.get("second"), followup.get("tx2", [])
+            # the first exchange may have ended in a disconnect; the follow-up then re-handshakes on V3 first
+            if len(t2) != r:
+                prob = f"a completely unanswered exchange after this one transmitted {len(t2)} times, budget {r}"
+            elif sec != ("exc", "TimeoutError"):
+                prob = f"a completely unanswered exchange after this one ended with {sec} instead of a timeout"
         if prob:
             st.violation(f"A v{version} r={r}: " + prob.split(",")[0].split(" [")[0].split(" at +")[0][:60], case,
                          {"transmissions": count, "success": ok, "first_arrival": a}, prob, f"tx={rel} outcome={out!s}"[:300])
